@@ -216,12 +216,24 @@ def rebound_names(stmts):
 
 class StmtMixin:
     # ---- iteration protocol ---------------------------------------------------------------------------
-    def iter_info(self, v: Val, st, node) -> IterInfo:
+    def need_positions(self, info, st):
+        """the consumer is going to use the POSITIONS of a dict's key sequence (iteration order, indices, length of the view):
+        only then are the well-formedness facts that tie the key list to the domain assumed (they are quantified facts over a
+        sequence - of strings, typically - which is where z3 has answered `unsat` wrongly; consumers that only need the DOMAIN,
+        like all(.. for k in d) or {k: v for k, v in d.items()}, do without them)"""
+        nw = getattr(info, "need_wf", None)
+        if nw is not None:
+            from . import models
+
+            models.dict_wf(st, nw[0], nw[1], self)
+        return info
+
+    def iter_info(self, v: Val, st, node, positions=True) -> IterInfo:
         from . import models
 
         v = self.deopt(v, st, node)
         if v.is_py and isinstance(v.py, tuple) and len(v.py) == 3 and v.py[0] == "iterinfo":
-            return v.py[1]
+            return self.need_positions(v.py[1], st) if positions else v.py[1]
         if v.is_py and isinstance(v.py, (list, tuple, range, set, frozenset, dict, str)):
             if isinstance(v.py, (set, frozenset)):
                 try:
@@ -255,11 +267,13 @@ class StmtMixin:
             d = t.sort()
             ks = d.keys(lift(v))
             dom = d.dom(lift(v))
-            models.dict_wf(st, t, lift(v), self)
-            return IterInfo(
+            info = IterInfo(
                 "indexed", n=z3.Length(ks), item=lambda i: Val(t.k, ks[i]),
                 facts=lambda i: [z3.Select(dom, ks[i])], seqval=Val(T.List(t.k), ks),
             )
+            info.dict_items = (t, lift(v), "keys")
+            info.need_wf = (t, lift(v))
+            return self.need_positions(info, st) if positions else info
         if isinstance(t, T.Ref):
             cs = self.class_of(t)
             if cs.iter is None:
@@ -302,7 +316,9 @@ class StmtMixin:
             raise Unsupported("nested generators in all/any", gen)
         g = gen.generators[0]
         src = self.eval(g.iter, st)
-        info = self.iter_info(src, st, gen)
+        info = self.iter_info(src, st, gen, positions=False)
+        if getattr(info, "dict_items", None) is None:
+            self.need_positions(info, st)
         sub = st.copy()
         if info.kind == "concrete":
             rs = []
@@ -380,7 +396,7 @@ class StmtMixin:
 
         g0 = node.generators[0]
         src0 = self.eval(g0.iter, st)
-        info0 = self.iter_info(src0, st, node)
+        info0 = self.iter_info(src0, st, node, positions=False)
         if info0.kind == "concrete" and kind in ("list", "set", "dict"):
             inner = copy.copy(node)
             inner.generators = node.generators[1:]
@@ -418,7 +434,7 @@ class StmtMixin:
         try:
             for k, g in enumerate(node.generators):
                 src = src0 if k == 0 else self.eval(g.iter, sub)
-                info = info0 if k == 0 else self.iter_info(src, sub, node)
+                info = info0 if k == 0 else self.iter_info(src, sub, node, positions=False)
                 meta = getattr(info, "dict_items", None)
                 if meta is None and isinstance(src.ty, T.Dict) and not src.is_py:
                     meta = (src.ty, lift(src), "keys")
@@ -437,6 +453,7 @@ class StmtMixin:
                     guard = z3.Select(info.set_term, x)
                     item, facts = Val(info.elem, x), []
                 else:
+                    self.need_positions(info, st)
                     x = z3.Int(fresh_name("mi"))
                     guard = z3.And(x >= 0, x < info.n)
                     item, facts = info.item(x), info.facts(x)
@@ -476,7 +493,7 @@ class StmtMixin:
             return self.multi_comprehension(node, st, kind)
         g = node.generators[0]
         src = self.eval(g.iter, st)
-        info = self.iter_info(src, st, node)
+        info = self.iter_info(src, st, node, positions=False)
         if info.kind == "concrete":
             out = []
             for it in info.items:
@@ -516,6 +533,7 @@ class StmtMixin:
         # symbolic sources --------------------------------------------------------------
         if kind in ("set", "dict") or info.kind == "set":
             return self.array_comprehension(node, g, info, src, st, kind)
+        self.need_positions(info, st)
         return self.seq_comprehension(node, g, info, st)
 
     def array_comprehension(self, node, g, info, src, st, kind):
@@ -629,6 +647,7 @@ class StmtMixin:
         satisfiable for every finite sequence)."""
         if info.kind != "indexed":
             raise Unsupported("set/dict comprehension over this iterable", node)
+        self.need_positions(info, st)
         sub = st.copy()
         i = z3.Int(fresh_name("ci"))
         guard = z3.And(i >= 0, i < info.n)
